@@ -68,13 +68,15 @@ Definition E_FUEL : Z := 2.
 
 (* Demuxer::read_segment: read_exact 8 bytes, Header::from, read_exact payload_len bytes *)
 Definition read_segment (bs : list Z) : outcome (Z * list Z * list Z) :=
-  if (length bs <? 8)%nat then Err E_EOF else
-  match header_decode (firstn 8 bs) with
+  let hd := firstn 8 bs in
+  if (length hd <? 8)%nat then Err E_EOF else
+  match header_decode hd with
   | Ok h =>
     let rest := skipn 8 bs in
     let n := Z.to_nat (h_len h) in
-    if (length rest <? n)%nat then Err E_EOF
-    else Ok (h_protocol h, firstn n rest, skipn n rest)
+    let payload := firstn n rest in
+    if (length payload <? n)%nat then Err E_EOF
+    else Ok (h_protocol h, payload, skipn n rest)
   | Err e => Err e
   | Panic p => Panic p
   end.
